@@ -5,6 +5,7 @@ import (
 	"errors"
 	"fmt"
 	"strings"
+	"time"
 
 	"github.com/yaricom/goNEAT/v4/experiment"
 	"github.com/yaricom/goNEAT/v4/neat"
@@ -42,7 +43,28 @@ type c20Config struct {
 	Observer  bool `json:"observer"`
 	Parallel  bool `json:"parallel"`
 	PreCancel bool `json:"cancel_before_start"`
+	Deadline  bool `json:"deadline"` // the context ends by an expired deadline instead of an explicit cancel
+	Prealloc  int  `json:"prealloc"` // > 0: Experiment.Trials pre-allocated with Runs+Prealloc entries (a re-used experiment)
 }
+
+// endableCtx is a context the harness can end at a chosen moment either as cancelled or as
+// past its deadline (a real deadline cannot be placed at a particular evaluator call).
+type endableCtx struct {
+	context.Context
+	done chan struct{}
+	err  error
+}
+
+func (e *endableCtx) Done() <-chan struct{} { return e.done }
+func (e *endableCtx) Err() error {
+	select {
+	case <-e.done:
+		return e.err
+	default:
+		return nil
+	}
+}
+func (e *endableCtx) Deadline() (time.Time, bool) { return time.Time{}, false }
 
 type c20Seen struct {
 	run, gen int
@@ -179,14 +201,28 @@ func c20Run(cfg c20Config, script []int) (msg string, consumed []int, events []s
 		opts.EpochExecutorType = neat.EpochExecutorTypeParallel
 	}
 	opts.MutateAddNodeProb, opts.MutateAddLinkProb = 0.3, 0.3
-	ctx, cancel := context.WithCancel(opts.NeatContext())
-	defer cancel()
+	endErr := error(context.Canceled)
+	if cfg.Deadline {
+		endErr = context.DeadlineExceeded
+	}
+	ectx := &endableCtx{Context: opts.NeatContext(), done: make(chan struct{}), err: endErr}
+	var ctx context.Context = ectx
+	ended := false
+	cancel := func() {
+		if !ended {
+			ended = true
+			close(ectx.done)
+		}
+	}
 	if cfg.PreCancel {
 		cancel()
 	}
 	start := xorSeed()
 	h := &c20Harness{script: script, cancel: cancel, startK: structureKey(start)}
 	e := experiment.Experiment{Id: 1}
+	if cfg.Prealloc > 0 {
+		e.Trials = make(experiment.Trials, cfg.Runs+cfg.Prealloc)
+	}
 	var obs experiment.TrialRunObserver
 	if cfg.Observer {
 		obs = h
@@ -212,6 +248,9 @@ func c20Run(cfg c20Config, script []int) (msg string, consumed []int, events []s
 		return ansUnsolved
 	}
 	want, trials, aborted, wantErr, calls := c20Reference(cfg, ans)
+	if aborted && wantErr == context.Canceled {
+		wantErr = endErr
+	}
 	got := events
 	if !cfg.Observer {
 		want = c20Observerless(want)
@@ -248,8 +287,13 @@ func c20Run(cfg c20Config, script []int) (msg string, consumed []int, events []s
 	if len(e.Trials) < len(trials) {
 		return fmt.Sprintf("%d trials recorded, %d completed", len(e.Trials), len(trials)), consumed, events
 	}
-	if !aborted && len(e.Trials) != cfg.Runs {
-		return fmt.Sprintf("%d trials recorded, %d configured", len(e.Trials), cfg.Runs), consumed, events
+	if !aborted && len(e.Trials) != cfg.Runs+cfg.Prealloc {
+		return fmt.Sprintf("%d trial records, %d configured (+%d pre-allocated)", len(e.Trials), cfg.Runs, cfg.Prealloc), consumed, events
+	}
+	for i := len(trials); i < len(e.Trials) && !aborted; i++ {
+		if len(e.Trials[i].Generations) != 0 {
+			return fmt.Sprintf("trial record #%d beyond the %d configured trials was filled (%d generations recorded)", i, cfg.Runs, len(e.Trials[i].Generations)), consumed, events
+		}
 	}
 	for i, t := range trials {
 		r := e.Trials[i]
@@ -313,7 +357,9 @@ func runC20(c *Ctx) {
 			for _, obs := range []bool{true, false} {
 				for _, par := range []bool{false, true} {
 					for _, pre := range []bool{false, true} {
-						cfgs = append(cfgs, c20Config{r, g, obs, par, pre})
+						cfgs = append(cfgs, c20Config{Runs: r, Gens: g, Observer: obs, Parallel: par, PreCancel: pre})
+						// the same with an expired deadline instead of a cancel, and on a re-used experiment
+						cfgs = append(cfgs, c20Config{Runs: r, Gens: g, Observer: obs, Parallel: par, PreCancel: pre, Deadline: true, Prealloc: 2})
 					}
 				}
 			}
@@ -354,7 +400,7 @@ func runC20(c *Ctx) {
 				} else if strings.Contains(msg, "error") || strings.Contains(msg, "returned") {
 					clause = "error-result"
 				}
-				c.ViolateOrd("C20/"+clause, int64(len(consumed)*100+cfg.Runs*10+cfg.Gens), fmt.Sprintf("%s [runs=%d generations=%d observer=%v parallel=%v cancelled-before-start=%v, evaluator answers %v]", msg, cfg.Runs, cfg.Gens, cfg.Observer, cfg.Parallel, cfg.PreCancel, names),
+				c.ViolateOrd("C20/"+clause, int64(len(consumed)*100+cfg.Runs*10+cfg.Gens), fmt.Sprintf("%s [runs=%d generations=%d observer=%v parallel=%v ended-before-start=%v deadline=%v prealloc=%d, evaluator answers %v]", msg, cfg.Runs, cfg.Gens, cfg.Observer, cfg.Parallel, cfg.PreCancel, cfg.Deadline, cfg.Prealloc, names),
 					&Replay{Scenario: "experiment", Params: params, Answers: consumed, Clause: msg})
 			}
 			for i := len(prefix); i < len(consumed); i++ {
@@ -384,8 +430,8 @@ func runC20(c *Ctx) {
 	c.Count("executions", total)
 	c.Count("evaluator_calls", evalCalls)
 	c.Count("distinct_call_sequences", int64(len(outcomes)))
-	c.Sample(map[string]interface{}{"config": c20Config{2, 2, true, false, false}, "answers": []string{"unsolved", "cancel+solved"}, "protocol": []string{"start(0)", "eval(0,0)", "epoch(0,0)", "eval(0,1)", "epoch(0,1)", "finish(0)", "start(1)", "<context.Canceled>"}})
-	c.Rule = fmt.Sprintf("NumRuns x NumGenerations in {0..%d}^2 x observer {present, nil} x executor {sequential, parallel} x context {live, cancelled before Execute}; every GenerationEvaluate call is a choice point with 5 answers (unsolved, solved, error, cancel the context then unsolved / solved); the COMPLETE tree of answer scripts is enumerated on the real Execute with a 4-organism XOR population; a reference state machine written from the statement gives the expected call sequence (exact for undisturbed runs; for aborted runs: identical up to the abort, no further evaluation, the right error), the recorded trials, and the population handling (fresh object per trial, start topology at generation 0, turnover between unsolved generations, none after a solved one). states = distinct (configuration, observed call sequence), transitions = evaluator calls", maxRG)
+	c.Sample(map[string]interface{}{"config": c20Config{Runs: 2, Gens: 2, Observer: true}, "answers": []string{"unsolved", "cancel+solved"}, "protocol": []string{"start(0)", "eval(0,0)", "epoch(0,0)", "eval(0,1)", "epoch(0,1)", "finish(0)", "start(1)", "<context.Canceled>"}})
+	c.Rule = fmt.Sprintf("NumRuns x NumGenerations in {0..%d}^2 x observer {present, nil} x executor {sequential, parallel} x context {live, ended before Execute} x {ended by cancel with a nil Trials slice, ended by an expired deadline with a pre-allocated longer Trials slice (re-used experiment)}; every GenerationEvaluate call is a choice point with 5 answers (unsolved, solved, error, cancel the context then unsolved / solved); the COMPLETE tree of answer scripts is enumerated on the real Execute with a 4-organism XOR population; a reference state machine written from the statement gives the expected call sequence (exact for undisturbed runs; for aborted runs: identical up to the abort, no further evaluation, the right error), the recorded trials, and the population handling (fresh object per trial, start topology at generation 0, turnover between unsolved generations, none after a solved one). states = distinct (configuration, observed call sequence), transitions = evaluator calls", maxRG)
 	c.Assume("random draws come from the real math/rand (their values do not influence the protocol); log output is discarded")
 }
 
